@@ -218,6 +218,8 @@ theorem addValidator_fields (cfg : Config) (s1 s' : State) (pk wc : Bytes) (amt 
       s'.balances = s1.balances ++ [amt] ∧ s'.slot = s1.slot ∧ s'.randao_mixes = s1.randao_mixes ∧ s'.fork = s1.fork ∧
       s'.slashings = s1.slashings ∧ s'.eth1_deposit_index = s1.eth1_deposit_index ∧ s'.eth1_data = s1.eth1_data ∧
       s'.block_roots = s1.block_roots ∧ s'.current_sync_committee = s1.current_sync_committee ∧
+      s'.genesis_time = s1.genesis_time ∧ s'.next_withdrawal_index = s1.next_withdrawal_index ∧
+      s'.next_withdrawal_validator_index = s1.next_withdrawal_validator_index ∧
       (s1.fork ≠ .phase0 → s'.current_epoch_participation = s1.current_epoch_participation ++ [0] ∧
         s'.previous_epoch_participation = s1.previous_epoch_participation ++ [0]) := by
   unfold addValidator at h
@@ -231,10 +233,10 @@ theorem addValidator_fields (cfg : Config) (s1 s' : State) (pk wc : Bytes) (amt 
       by_cases hf : s1.fork = .phase0
       · simp only [show (s1.fork = Fork.phase0) = True from eq_true hf, if_true, Res.pure_eq] at h
         cases h
-        exact ⟨_, hcap, by simpa using hlim, rfl, rfl, rfl, rfl, rfl, rfl, rfl, rfl, rfl, rfl, fun hne => absurd hf hne⟩
+        exact ⟨_, hcap, by simpa using hlim, rfl, rfl, rfl, rfl, rfl, rfl, rfl, rfl, rfl, rfl, rfl, rfl, rfl, fun hne => absurd hf hne⟩
       · simp only [show (s1.fork = Fork.phase0) = False from eq_false hf, if_false, Res.pure_eq] at h
         cases h
-        exact ⟨_, hcap, by simpa using hlim, rfl, rfl, rfl, rfl, rfl, rfl, rfl, rfl, rfl, rfl, fun _ => ⟨rfl, rfl⟩⟩
+        exact ⟨_, hcap, by simpa using hlim, rfl, rfl, rfl, rfl, rfl, rfl, rfl, rfl, rfl, rfl, rfl, rfl, rfl, fun _ => ⟨rfl, rfl⟩⟩
     · cases h
 
 /-- the three outcomes of an accepted `ProcessDeposit`: top-up, skipped (failing proof of possession), new validator -/
@@ -747,7 +749,7 @@ theorem opSteps_phase0 (cfg : Config) (S0 : State) (p Bm C : Nat) (K : P0Const c
     fork := fun _ _ _ h => by rw [h.inv.base.slash.fork]; exact hF
     header := fun k ctx st hi => p0d_header cfg S0 p Bm C block k ctx st hi
     payload := fun ctx payload hpl => by rw [hb.payload] at hpl; cases hpl
-    withdrawals := fun ctx payload hpl => by rw [hb.payload] at hpl; cases hpl
+    withdrawals := fun _ ctx payload hpl => by rw [hb.payload] at hpl; cases hpl
     randao := fun ctx => p0d_randao cfg S0 p Bm C K KA block ctx
     eth1 := fun ctx => p0d_eth1 cfg S0 p Bm C K block ctx
     proposerSlashing := fun ctx => p0d_proposerSlashing cfg S0 p Bm C K _ ctx
